@@ -6,6 +6,7 @@ import (
 	"encoding/json"
 	"net/http"
 	"net/url"
+	"strconv"
 	"strings"
 	"sync"
 
@@ -46,11 +47,12 @@ func CloseWorld() {
 
 // SysReq is a client request as sent on the wire.
 type SysReq struct {
-	Method string
-	Target string
-	Host   string
-	Header [][2]string
-	Body   []byte
+	Method  string
+	Target  string
+	Host    string
+	Header  [][2]string
+	Body    []byte
+	Chunked bool // body sent with Transfer-Encoding: chunked (no Content-Length)
 }
 
 func (r SysReq) Raw() []byte {
@@ -58,6 +60,22 @@ func (r SysReq) Raw() []byte {
 	b.WriteString(r.Method + " " + r.Target + " HTTP/1.1\r\nHost: " + r.Host + "\r\nConnection: close\r\n")
 	for _, kv := range r.Header {
 		b.WriteString(kv[0] + ": " + kv[1] + "\r\n")
+	}
+	if r.Chunked {
+		b.WriteString("Transfer-Encoding: chunked\r\n\r\n")
+		rest := r.Body
+		for len(rest) > 0 {
+			n := len(rest)
+			if n > 4096 {
+				n = 4096
+			}
+			b.WriteString(strconv.FormatInt(int64(n), 16) + "\r\n")
+			b.Write(rest[:n])
+			b.WriteString("\r\n")
+			rest = rest[n:]
+		}
+		b.WriteString("0\r\n\r\n")
+		return b.Bytes()
 	}
 	if len(r.Body) > 0 || r.Method == "POST" || r.Method == "PUT" {
 		b.WriteString("Content-Length: " + hx.I(len(r.Body)) + "\r\n")
@@ -104,15 +122,28 @@ func scriptFunc(es []ScriptEntry) func(*http.Request) *sysx.OriginResp {
 	}
 }
 
-// matchedTriple: what Rules.Match will see for this request (net/url is trusted here, as in
-// the match/outurl streams): flag 1 + scheme, host, request-target; flag 0 = net/http rejects
-// the request; flag 2 = matched string unparsable; flag 3 = panic while building it.
+// matchedTriple: what the matching must be done on, computed from the request text WITHOUT
+// rrrouter's own helpers (net/http's request parser and net/url are trusted): scheme from
+// X-Forwarded-Proto, host = Host header without port, request-target = escaped path + "?" + raw
+// query. flag 1 = ok; 0 = net/http rejects the request; 2 = rrrouter's own string (completeURL →
+// destinationString → url.Parse, still computed for comparison) is unparsable; 3 = panic while
+// building it; 4 = the independent triple and rrrouter's own differ.
 func matchedTriple(raw []byte) (flag int, scheme, host, uri, rawQuery, decodedPath string) {
 	req, err := http.ReadRequest(bufio.NewReader(bytes.NewReader(raw)))
 	if err != nil {
 		return 0, "", "", "", "", ""
 	}
 	decodedPath = req.URL.Path
+	rawQuery = req.URL.RawQuery
+	scheme = "http"
+	if strings.ToLower(req.Header.Get("X-Forwarded-Proto")) == "https" {
+		scheme = "https"
+	}
+	host = specDropPort(req.Host)
+	uri = req.URL.RequestURI()
+	if i := strings.IndexByte(uri, '#'); i >= 0 {
+		uri = uri[:i]
+	}
 	flag = 3
 	func() {
 		defer func() { recover() }()
@@ -122,9 +153,29 @@ func matchedTriple(raw []byte) (flag int, scheme, host, uri, rawQuery, decodedPa
 			flag = 2
 			return
 		}
-		flag, scheme, host, uri, rawQuery = 1, u.Scheme, u.Host, u.RequestURI(), req.URL.RawQuery
+		flag = 1
+		if u.Scheme != scheme || u.Host != host || u.RequestURI() != uri {
+			flag = 4
+		}
 	}()
 	return
+}
+
+// specDropPort: the Host header without its port, as the README describes host matching.
+func specDropPort(h string) string {
+	if h == "" || h[0] == ':' {
+		return h
+	}
+	if h[0] == '[' {
+		if i := strings.LastIndex(h, "]"); i >= 1 {
+			return h[1:i]
+		}
+		return h
+	}
+	if i := strings.LastIndex(h, ":"); i >= 0 {
+		return h[:i]
+	}
+	return h
 }
 
 var userErrorStatuses = map[int]bool{400: true, 404: true, 407: true, 499: true, 502: true, 503: true, 508: true}
@@ -375,6 +426,11 @@ func sysuStream(g *hx.Gen, id int) hx.Case {
 	if g.Chance(15) {
 		c.Rules = append(c.Rules, hx.RuleSpec{Path: "/m/post/*", Dest: "http://d2.test/$1", Methods: []string{"POST"}})
 	}
+	if g.Chance(30) {
+		// an exact pattern in front of the wildcard: it must match the request-target INCLUDING the
+		// query, so "/m/ab?q=1" falls through to the wildcard rule
+		c.Rules = append(c.Rules, hx.RuleSpec{Path: "/m/ab", Dest: "http://d4.test/fixed"})
+	}
 	c.Rules = append(c.Rules, main)
 	if g.Chance(20) {
 		c.Rules = append(c.Rules, hx.RuleSpec{Path: "/*", Dest: "http://d3.test/$1"})
@@ -418,8 +474,9 @@ func sysuStream(g *hx.Gen, id int) hx.Case {
 	}
 	if c.Req.Method == "POST" || c.Req.Method == "PUT" || g.Chance(10) {
 		c.Req.Body = genBody(g)
+		c.Req.Chunked = len(c.Req.Body) > 0 && g.Chance(35)
 	}
-	for _, h := range []string{"d0.test", "c0.test", "r0.test", "r1.test", "d2.test", "d3.test"} {
+	for _, h := range []string{"d0.test", "c0.test", "r0.test", "r1.test", "d2.test", "d3.test", "d4.test"} {
 		if h == "r1.test" && g.Chance(50) {
 			continue // unreachable: no script entry
 		}
